@@ -40,7 +40,7 @@ def proxy_scenarios(ctx, out):
     from pyecore.ecore import EClass, EAttribute, EReference, EString, EPackage, EProxy
     from pyecore.resources import ResourceSet, URI
     rng = common.rng_for(ctx.seed, 'C07:proxy')
-    n = 25 if ctx.tier != 'thorough' else 500
+    n = 70 if ctx.tier != 'thorough' else 900
     cnt = proxies = 0
     for it in range(n):
         Node = EClass('Node')
@@ -145,13 +145,25 @@ def proxy_scenarios(ctx, out):
                 return d
             victim = rng.choice(bnames)
             recursive = rng.random() < 0.6
-            plan['delete'] = [victim, recursive]
+            # the call is made on the object itself, or THROUGH a reference that holds it as a resolved proxy
+            through = None
+            holders = [(nm, f) for nm in anames for f in ('friend', 'second', 'mate', 'owner')
+                       if isinstance(loaded[nm].eGet(f), EProxy) and loaded[nm].eGet(f).resolved
+                       and unwrap(loaded[nm].eGet(f)).name in bnames]
+            if holders and rng.random() < 0.5:
+                # (prefer a target that has contents: recursive=False must leave them alone)
+                with_kids = [h for h in holders if len(unwrap(loaded[h[0]].eGet(h[1])).kids)]
+                through = rng.choice(with_kids or holders)
+                victim = unwrap(loaded[through[0]].eGet(through[1])).name
+                recursive = rng.random() < 0.35
+            plan['delete'] = [victim, recursive, through]
             pre = snapshot()
             dead = {victim}
             if recursive:
                 dead |= {o.name for o in loaded[victim].eAllContents()}
             try:
-                loaded[victim].delete(recursive=recursive)
+                target = loaded[victim] if through is None else loaded[through[0]].eGet(through[1])
+                target.delete(recursive=recursive)
                 raised = None
             except Exception as e:  # noqa
                 raised = type(e).__name__
